@@ -101,7 +101,8 @@ def serialized_sources(wd, seed, tier):
             open(fp, "wb").write(img)
             out.append({"name": f"enc:{c['name']}+s1", "file": fp})
     for i, c in enumerate([c for c in cases if not c["name"].startswith("big-")][:: (9 if tier == "quick" else 3)]):
-        img, scene = materialize.build_file([c], v=i % 6, guid=f"enc-{i}")
+        # (file GUIDs with multi-byte characters: the XML length of the copy is counted in bytes)
+        img, scene = materialize.build_file([c], v=i % 6, guid=f"enc-{i}" + ("-東京–ü\U0001F600" if i % 2 else ""))
         fp = os.path.join(wd, f"enc_{i}.e57")
         open(fp, "wb").write(img)
         out.append({"name": f"enc:{c['name']}:xml{i % 6}", "file": fp})
